@@ -37,7 +37,9 @@ def gen_project(rnd, n, fail=0, stamp=0, maxdeps=3, sleep_ms=(2, 25)):
 def do_text(pj, t):
     deps = pj['deps'][t]
     mark = 'printf \'{"pid":%%d,"ev":"%s","t":"%s"}\\n\' $$ >> "$VT_TRACE"'
-    lines = ['redo-ifchange src %s' % ' '.join(deps),
+    lines = ["trap '%s' EXIT" % (mark % ('ScriptEnd', t)).replace("'", "'\\''"),     # before it ends, however it ends
+             mark % ('ScriptStart', t),        # after the script began
+             'redo-ifchange src %s' % ' '.join(deps),
              mark % ('WorkBegin', t),          # after the work section began
              'sleep 0.%03d' % pj['sleeps'][t],
              mark % ('WorkEnd', t),            # before it ends
